@@ -35,10 +35,10 @@ theorem gen_filterClasses : Gen.filterClasses.eraseDups = ["Assignment", "Block"
 /-- node / value classes every converter dispatches on (both copies) — what `nodeEntry`, `convertValue`,
 `mdNode`, `mdValue`, `mdValueCli` transcribe -/
 theorem gen_converterDispatch : Gen.converterDispatch =
-    [("mcp._ast_to_dict", ["Assignment", "Block"]), ("mcp._convert_value", ["LiteralZoneValue", "HolographicValue", "ListValue", "InlineMap"]),
+    [("mcp._ast_to_dict", ["Assignment", "Block"]), ("mcp._convert_value", ["LiteralZoneValue", "HolographicValue", "ListValue", "InlineMap", "dict"]),
      ("mcp._convert_block", ["Assignment", "Block"]), ("mcp._format_markdown_value", ["LiteralZoneValue", "ListValue", "InlineMap"]),
      ("mcp._ast_to_markdown", ["Assignment", "Block"]), ("mcp._block_to_markdown", ["Assignment", "Block"]),
-     ("cli._ast_to_dict", ["Assignment", "Block"]), ("cli._ast_to_dict.convert_value", ["HolographicValue", "ListValue", "InlineMap"]),
+     ("cli._ast_to_dict", ["Assignment", "Block"]), ("cli._ast_to_dict.convert_value", ["HolographicValue", "ListValue", "InlineMap", "dict"]),
      ("cli._ast_to_dict.convert_block", ["Assignment", "Block"]), ("cli._ast_to_markdown", ["Assignment", "Block"]),
      ("cli._block_to_markdown", ["Assignment", "Block"])] := by
   decide
@@ -167,9 +167,9 @@ theorem C14_missing_leaf_means_lossy_partial (zones : Bool) (mode : Str) (d : Do
     rw [C14_project_honest mode d hl]
     exact docTree_leaves_eq zones d hs hd
 
-/-- and `json.dumps` does not raise (MCP copy) when no value is a plain dict (nested META block, F52) -/
-theorem C14_jsonable_partial (d : Doc) (h : docValuesAll Value.mcpOk d = true) : jsonable (astToDict true d) = true :=
-  astToDict_jsonable d h
+/-- and `json.dumps` never raises on the MCP conversion — no guard left (F33 and the json/yaml half of F52 are fixed in /repo) -/
+theorem C14_jsonable (d : Doc) : jsonable (astToDict true d) = true :=
+  astToDict_jsonable d
 
 /-! ## The four renderings of one projection agree -/
 
@@ -283,8 +283,12 @@ theorem C14_KF_cli_differs :
 /-- F52 witness: `META: ⟨TYPE::X, SUB: ⟨K::[a,b]⟩⟩` -/
 def wF52 : Doc := { name := s "DOC", dmeta := [(s "TYPE", .str (s "X")), (s "SUB", .pydict [(s "K", .list [.str (s "a"), .str (s "b")])])],
                     sections := [.assign {} (s "A") (.int 1)] }
-theorem C14_KF_meta_nested :
-    jsonable (astToDict true wF52) = false ∧ docValuesAll Value.mcpOk wF52 = false := by
+/-- F52, what is left after fix fd2ad16 (json/yaml descend into the nested META block): markdown prints the `repr` of the dict
+at `META/SUB` instead of the fields below it. -/
+theorem C14_KF_meta_nested_markdown :
+    jsonable (astToDict true wF52) = true
+    ∧ ([s "META", s "SUB"], [opaqueMark]) ∈ mdLeaves (mdLines mdValue wF52)
+    ∧ noPyDict wF52 = false := by
   decide
 
 /-! ## Non-vacuity: a document with nested blocks, lists, an inline map, a literal zone, META and the filter keys
@@ -298,7 +302,7 @@ def wOK : Doc := {
                                     .block {} (s "IN") [.assign {} (s "TESTS") (.bool true)]],
                .comment {} (s "note")] }
 
-example : noSections wOK = true ∧ noDupSiblings wOK = true ∧ mdOrdered wOK = true ∧ docValuesAll Value.mcpOk wOK = true := by decide
+example : noSections wOK = true ∧ noDupSiblings wOK = true ∧ mdOrdered wOK = true := by decide
 example : (project (s "canonical") wOK).lossy = false := by decide
 example : (Doc.leaves (project (s "executive") wOK).doc).length = 3 ∧ (Doc.leaves wOK).length = 6 := by decide
 example : (docTree true wOK).leaves.map Prod.fst = (Doc.leaves wOK).map Prod.fst := by decide
